@@ -1529,6 +1529,10 @@ class TrajectoryStore:
 
         if not self.indexable or not self.index_stale:
             return
+        if not self.nc_linked:
+            # An in-memory store has no file to hold the index yet: it stays
+            # stale until the store is saved.
+            return
 
         # Get the NetCDF4 groups for the base field set.
         gs = self._nc[BASE_FIELDSET_NAME].groups[BASE_FIELDSET_NAME]
